@@ -16,7 +16,15 @@ replay: every docstring TLC finished is rendered from the abstract line list
         the error class must equal the specification's, and the parts joined
         back must reproduce the de-indented docstring line for line; a fifth of
         the cases is also parsed tab-indented / with extra common indentation.
+trace : corpus conformance (specs/DocParseTrace.tla): every docstring with a
+        prompt in the repository's sources and tests (thorough: also the
+        standard library and site-packages, 1 305 docstrings / 31 909 lines) is
+        abstracted line by line and labelled by the real parser; the Feed
+        action driven by those lines must give every line the same label and
+        end in the same error class.
 """
+import os
+
 from . import common, parselib
 
 BOUNDS = {'quick': [('C13_Blocks', 3, None)], 'thorough': [('C13_Blocks', 3, None), ('C13_Core', 5, 400000)]}
@@ -35,6 +43,16 @@ def run(tier):
         parselib.run_space(out, '%s<=%d' % (blocks, n), blocks, n, sig, limit=limit)
     for dev in ('WantOnlyEndsAtBlank', 'NoTripleQuoteHack'):
         parselib.deviation_must_fail(out, 'C13_Blocks', 3, dev)
+    # code -> spec on real docstrings: the Feed action must reproduce the real labelling of every docstring of the corpus
+    from . import corpus
+    roots = [common.SRC, os.path.join(common.REPO, 'tests')]
+    if tier == 'thorough':
+        import sysconfig
+        roots += [sysconfig.get_paths()['stdlib'], sysconfig.get_paths()['purelib']]
+    for r in corpus.corpus_phase(out, roots):
+        out.violation({'kind': 'corpus_labelling'}, {'file': r['file'], 'name': r['name'], 'first_disagreeing_line': r['line'],
+                                                       'label_by_the_specification': r['label_by_spec'], 'real_labels': r['real_labels'],
+                                                       'real_error': r['real_err'], 'text': r['docstring']})
     out.exhaustive = not out.extra.get('replay_sampled', False)
     out.assumptions = ['lines are instances of the templates of harness/parselib.py (checked against Python\'s tokenizer/ast at start)',
                        '"reproduce line for line" is compared on line content: per-chunk de-indentation and the "... " put in front of unprefixed string lines are allowed']
